@@ -65,6 +65,7 @@ class PoolWorld(object):
         self.direct_events = []
         self.replace_log = []
         self.pool_info = {}
+        self.in_service = set()
         self.session_shutdown_trace = None
         self.viol = []
         pw = self
@@ -158,8 +159,11 @@ class PoolWorld(object):
             if f > mm[1]:
                 mm[1] = f
             pool = owner_of(conn)
-            if pool is not None and conn in getattr(pool, '_trash', ()):
-                self.trashed.add(conn.sim_id)
+            if pool is not None:
+                if conn in getattr(pool, '_trash', ()):
+                    self.trashed.add(conn.sim_id)
+                if not pool.is_shutdown and (getattr(pool, '_connection', None) is conn or conn in (getattr(pool, '_connections', None) or ())):
+                    self.in_service.add(conn.sim_id)       # seen installed in a live pool
         conn.lock.hooks = [inv]
 
     # ------------------------------------------------------------------ set-up (inside ``with pw.env``)
